@@ -7,6 +7,7 @@
 mod c01;
 mod c02;
 mod c03;
+mod c07;
 mod c08;
 mod c11;
 mod c12;
@@ -16,6 +17,7 @@ mod dump;
 mod exec;
 mod gen;
 mod imp;
+mod loc;
 mod model;
 mod sched;
 mod xlate;
@@ -35,6 +37,7 @@ fn property(id: &str) -> Option<Box<dyn Property>> {
         "C01" => Box::new(c01::C01::new()),
         "C02" => Box::new(c02::C02::new()),
         "C03" => Box::new(c03::C03::new()),
+        "C07" => Box::new(c07::C07::new()),
         "C08" => Box::new(c08::C08::new()),
         "C11" => Box::new(c11::C11::new()),
         "C12" => Box::new(c12::C12::new()),
